@@ -112,18 +112,18 @@ def sset_method(interp, s, name, args, kwargs):
         if is_sym(args):
             raise Unsupported(f"set.{name} with symbolic argument on concrete set")
         return interp.native(getattr(py, name), args, kwargs)
-    if name == "difference":
-        o = _as_sset(interp, args[0], s.cls)
-        return SSet(s.cls, _setop("diff", s.arr, o.arr))
-    if name == "union":
-        o = _as_sset(interp, args[0], s.cls)
-        return SSet(s.cls, _setop("union", s.arr, o.arr))
-    if name == "intersection":
-        o = _as_sset(interp, args[0], s.cls)
-        return SSet(s.cls, _setop("inter", s.arr, o.arr))
-    if name == "update":
-        o = _as_sset(interp, args[0], s.cls)
-        s.arr = _setop("union", s.arr, o.arr)
+    if kwargs:
+        raise Unsupported(f"set.{name} with keyword arguments")
+    if name in ("difference", "union", "intersection"):
+        arr = s.arr
+        for a in args:
+            o = _as_sset(interp, a, s.cls)
+            arr = _setop({"difference": "diff", "union": "union", "intersection": "inter"}[name], arr, o.arr)
+        return SSet(s.cls, arr)
+    if name in ("update", "difference_update", "intersection_update"):
+        for a in args:
+            o = _as_sset(interp, a, s.cls)
+            s.arr = _setop({"update": "union", "difference_update": "diff", "intersection_update": "inter"}[name], s.arr, o.arr)
         return None
     if name == "add":
         s.arr = z3.Store(s.arr, _rep(interp, args[0]), z3.BoolVal(True))
